@@ -18,7 +18,8 @@ Proof. intros x l H. apply existsb_exists in H. destruct H as [y [Hin Hy]]. appl
    names pinned for that language, place and type (language-wide handling: the language is pinned) *)
 Definition intended_P (main : list lang) (pins : list intended) (h : hw) : Prop :=
   exists n i, hw_row_name main h = Some n /\ In i pins /\ In (hw_lang h) (i_langs i) /\
-              hw_place h = i_place i /\ hw_type h = i_type i /\ (hw_place h = HAttrAny \/ In n (i_names i)).
+              hw_place h = i_place i /\ hw_type h = i_type i /\
+              (hw_place h = HAttrAny \/ hw_place h = HContentAny \/ In n (i_names i)).
 
 Lemma hw_intended_sound : forall main pins h, hw_intended main pins h = true -> intended_P main pins h.
 Proof.
@@ -28,7 +29,8 @@ Proof.
   repeat (apply andb_true_iff in Hi; destruct Hi as [Hi ?]).
   exists n, i. split; [reflexivity|]. split; [assumption|].
   split; [now apply existsb_N_in|]. split; [now apply where_eqb_eq|]. split; [now apply kind_eqb_eq|].
-  destruct (hw_place h); [right; now apply existsb_str_in | now left | right; now apply existsb_str_in].
+  destruct (hw_place h); [right; right; now apply existsb_str_in | now left | right; right; now apply existsb_str_in
+                         | right; right; now apply existsb_str_in | right; now left].
 Qed.
 
 Lemma hw_eqb_eq : forall a b, hw_eqb a b = true -> a = b.
@@ -41,22 +43,27 @@ Proof.
   congruence.
 Qed.
 
-(* the parser decodes e's place with e's type *)
+(* the parser decodes e's place with e's type (the MIME rewrite is a change of text, not a typed binary form: exempt) *)
 Definition decoded_same_P (dec : list hw) (e : hw) : Prop :=
-  In e dec \/
-  (hw_place e <> HContent /\ exists d, In d dec /\ hw_lang d = hw_lang e /\ hw_place d = HAttrAny /\ hw_type d = hw_type e).
+  hw_type e = HMime \/ hw_type e = HMimeDm \/ In e dec \/
+  (hw_place e <> HContent /\ hw_place e <> HContentAny /\
+   exists d, In d dec /\ hw_lang d = hw_lang e /\ hw_place d = HAttrAny /\ hw_type d = hw_type e).
 
 Lemma enc_matched_sound : forall dec e, enc_matched dec e = true -> decoded_same_P dec e.
 Proof.
-  unfold enc_matched, decoded_same_P. intros dec e H. apply orb_true_iff in H. destruct H as [H|H].
-  - left. apply existsb_exists in H. destruct H as [d [Hin Hd]]. apply hw_eqb_eq in Hd. now subst.
-  - right. destruct (hw_place e) eqn:Ep; try discriminate.
-    + split; [discriminate|]. apply existsb_exists in H. destruct H as [d [Hin Hd]].
-      repeat (apply andb_true_iff in Hd; destruct Hd as [Hd ?]). apply N.eqb_eq in Hd.
-      exists d. repeat split; auto using where_eqb_eq, kind_eqb_eq.
-    + split; [discriminate|]. apply existsb_exists in H. destruct H as [d [Hin Hd]].
-      repeat (apply andb_true_iff in Hd; destruct Hd as [Hd ?]). apply N.eqb_eq in Hd.
-      exists d. repeat split; auto using where_eqb_eq, kind_eqb_eq.
+  unfold enc_matched, decoded_same_P. intros dec e H.
+  apply orb_true_iff in H. destruct H as [H|H].
+  - apply orb_true_iff in H. destruct H as [H|H].
+    + unfold is_mime in H. destruct (hw_type e); try discriminate; auto.
+    + right. right. left. apply existsb_exists in H. destruct H as [d [Hin Hd]]. apply hw_eqb_eq in Hd. now subst.
+  - right. right. right.
+    assert (Hex : existsb (fun d => (hw_lang d =? hw_lang e) && where_eqb (hw_place d) HAttrAny && kind_eqb (hw_type d) (hw_type e)) dec = true
+                  /\ hw_place e <> HContent /\ hw_place e <> HContentAny).
+    { destruct (hw_place e); try discriminate; (split; [assumption | split; discriminate]). }
+    destruct Hex as [Hex [H1 H2]]. split; [assumption|]. split; [assumption|].
+    apply existsb_exists in Hex. destruct Hex as [d [Hin Hd]].
+    repeat (apply andb_true_iff in Hd; destruct Hd as [Hd ?]). apply N.eqb_eq in Hd.
+    exists d. repeat split; auto using where_eqb_eq, kind_eqb_eq.
 Qed.
 
 Lemma hardwired_ok_main : hardwired_ok main_table pinned_typed dec_hardwired enc_hardwired = true.
@@ -79,8 +86,13 @@ Proof.
   exact (proj1 (forallb_forall _ _) H2 e Hin).
 Qed.
 
-Lemma pins_realised : forallb (pin_realised main_table dec_hardwired) pinned_typed = true.
+Lemma pins_realised : forallb (pin_realised main_table (dec_hardwired ++ enc_hardwired)) pinned_typed = true.
 Proof.
   pose proof hardwired_ok_main as H. unfold hardwired_ok in H.
   apply andb_true_iff in H; destruct H as [H H3]. apply andb_true_iff in H; destruct H as [H H2]. apply andb_true_iff in H; destruct H as [H H1]. exact H3.
 Qed.
+
+(* table option BINARY: exactly the flagged rows are written as OPAQUE by the WBXML encoder and rendered in base64 by the
+   XML generator (probe over every real tag row) *)
+Lemma binary_rows_main : binary_rows_ok main_table enc_binary_rows xml_binary_rows = true.
+Proof. vm_compute. reflexivity. Qed.
